@@ -68,18 +68,11 @@ Group(s, a) == IF Mutant = 2 /\ a = "CONNECTING" THEN {c \in Present(s) : s[c] \
                ELSE {c \in Present(s) : s[c] = a}
 Publish(s, c1, r) ==
   /\ st' = s /\ cnt' = c1 /\ reported' = CurState(c1)
-  /\ r \in Perms(Group(s, CurState(c1)))
   /\ ring' = r /\ pos' = 0 /\ picks' = <<>>
 
 AInit == /\ st = [c \in Children |-> "none"] /\ cnt = ZeroCnt /\ reported = "TF"
          /\ ring = <<>> /\ pos = 0 /\ picks = <<>>
 
-Add(c, s, r) == /\ st[c] = "none" /\ s \in States
-                /\ Publish([st EXCEPT ![c] = s], Rec(cnt, "SHUTDOWN", s), r)
-Remove(c, r) == /\ st[c] # "none"
-                /\ Publish([st EXCEPT ![c] = "none"], Rec(cnt, st[c], "SHUTDOWN"), r)
-Trans(c, s, r) == /\ st[c] # "none" /\ s \in States
-                  /\ Publish([st EXCEPT ![c] = s], Rec(cnt, st[c], s), r)
 \* nondeterministic picker order (any permutation of the group)
 AddN(c, s) == st[c] = "none" /\ LET s1 == [st EXCEPT ![c] = s] c1 == Rec(cnt, "SHUTDOWN", s) IN
                 \E r \in Perms(Group(s1, CurState(c1))) : Publish(s1, c1, r)
